@@ -182,7 +182,7 @@ let do_api line =
                                    (si (Z.modulo y.ym_desc (zi 64)))
                                    (if loc then 1 else 0) (if f16 then 1 else 0) rels))
       (String.split_on_char ',' specs);
-    Buffer.add_string buf (Printf.sprintf " ; ov=0 leak=0 inv=%d" !inv);
+    Buffer.add_string buf (Printf.sprintf " ; ov=0 leak=0 inv=%d ugp=0" !inv);
     Buffer.contents buf
   | _ -> failwith "bad API line"
 
